@@ -10,6 +10,7 @@ import Drivers.NodeCell
 import Drivers.Codec
 import Drivers.Sol
 import Drivers.Dist
+import Drivers.Dist2
 import Drivers.MeshOps
 import Drivers.Cavity
 import Drivers.Guards
@@ -40,6 +41,7 @@ def main (args : List String) : IO UInt32 := do
   | "codec" :: rest => Drivers.Codec.run rest
   | "sol" :: rest => Drivers.Sol.run rest
   | "dist" :: rest => Drivers.Dist.run rest
+  | "dist2" :: rest => Drivers.Dist2.run rest
   | "meshops" :: rest => Drivers.MeshOps.run rest
   | "cavity" :: rest => Drivers.Cavity.run rest
   | "guards" :: rest => Drivers.Guards.run rest
